@@ -1,5 +1,6 @@
 import Vorbis.Driver.Common
 import Vorbis.Header
+import Vorbis.Generated.Funcs
 namespace Vorbis.Driver.C02
 open Vorbis Vorbis.Setup Vorbis.Header Vorbis.Block Vorbis.Driver
 
@@ -51,6 +52,19 @@ def step (s : St) : List String → St × List String
           let dump := if rc = 0 ∧ pkt.size > 0 ∧ pkt.get! 0 = 5 ∧ !hadSetup then
               match i'.setup with | some su => dumpSetup i'.channels su | none => [] else []
           ({ s with info := i' }, line :: dump)
+  | ["fn", "ilog", v] =>
+      -- the function body regenerated from lib/sharedbook.c, run as it is
+      match v.toNat? with
+      | some x => (s, ["fn " ++ (match (Vorbis.Generated.Funcs.ov_ilog.run (x : Int) 40).val? with | some r => toString r | none => "fuel")])
+      | none => (s, ["bad-op fn"])
+  | ["fn", "qv", e, d] =>
+      match e.toInt?, d.toInt? with
+      | some en, some dm =>
+          if dm < 1 ∨ en ≥ 16777216 then (s, ["fn refused"]) else
+          -- any starting guess gives the same answer (C02_quantvals_terminates_correct); a float guess keeps the run short
+          let g : Int := (Float.floor (Float.pow (Float.ofInt en) (1.0 / Float.ofInt dm))).toInt64.toInt
+          (s, ["fn " ++ (match (Vorbis.Generated.Funcs.book_maptype1_quantvals.run en g dm 200).val? with | some r => toString r | none => "fuel")])
+      | _, _ => (s, ["bad-op fn"])
   | ["init"] =>
       if !s.have_ ∨ s.dsp.isSome then (s, ["skipped init"]) else
       let (i', rc) := synthesisInit s.info
